@@ -118,6 +118,49 @@ Definition acl_serve (s : ipset) (internal : bool) (src : option addr) : acl_out
   | Some a => if set_contains s a then AclNext else AclDrop
   end.
 
+(* -------- who is "internal": middleware.responseWriter.Reset, statement by statement.
+   A transport reports its peer as a net.Addr; Reset looks at the dynamic type
+   (net.UDPAddr: UDP, DoQ; net.TCPAddr: TCP, DoT, the DoH/DoH3 mock writer, the
+   sub-query BufferWriter; anything else: no address at all), the IP bytes, the port,
+   and at an optional Internal() method of the transport.  The IP is the driver's
+   [option addr]: None = nil / not 4 or 16 bytes; a_is4 = the 4-byte form. *)
+Inductive addr_kind := KUdp | KTcp | KOther.
+Record remote := mk_remote {
+  r_kind : addr_kind;
+  r_ip : option addr;
+  r_port : Z;
+  r_says : option bool          (* the transport's own Internal(), when it has the method *)
+}.
+(* var internalIP = net.IPv4(a, b, c, d) — octets read from the source (Gen/C17.v) *)
+Definition sentinel_v4 : N := ((sentinel_o0 * 256 + sentinel_o1) * 256 + sentinel_o2) * 256 + sentinel_o3.
+(* net.IP.Equal(internalIP): the 4-byte form or the 16-byte IPv4-mapped form of the same address *)
+Definition ip_is_sentinel (ip : option addr) : bool :=
+  match ip with
+  | None => false
+  | Some a => if a_is4 a then a_val a =? sentinel_v4 else a_val a =? mapped_prefix + sentinel_v4
+  end.
+(* the switch over the address type: w.remoteip, w.internal *)
+Definition writer_remote_ip (r : remote) : option addr :=
+  match r_kind r with KUdp | KTcp => r_ip r | KOther => None end.
+Definition sentinel_remote (r : remote) : bool :=
+  match r_kind r with
+  | KUdp | KTcp => (r_port r =? 0)%Z && ip_is_sentinel (r_ip r)
+  | KOther => false
+  end.
+(* ... then: if w.internal { return }; if the transport has Internal(), take what it says *)
+Definition writer_internal (r : remote) : bool :=
+  if sentinel_remote r then true else match r_says r with Some b => b | None => false end.
+(* the writer Queryer.Query installs for a resolver-internal sub-query (middleware.BufferWriter):
+   bufferRemoteAddr octets / port and Internal() read from the source *)
+Definition buffer_remote_v4 : N := ((buffer_o0 * 256 + buffer_o1) * 256 + buffer_o2) * 256 + buffer_o3.
+Definition subquery_remote : remote :=
+  (* net.IPv4(..) is the 16-byte IPv4-mapped form *)
+  mk_remote KTcp (Some (mk_addr false (mapped_prefix + buffer_remote_v4))) buffer_remote_port
+            (Some (go_BufferWriter_Internal mk_T_BufferWriter)).
+(* accesslist.ServeDNS as the chain runs it: Internal() and RemoteIP() of the chain's writer *)
+Definition acl_serve_remote (s : ipset) (r : remote) : acl_outcome :=
+  acl_serve s (writer_internal r) (writer_remote_ip r).
+
 (* accesslist.New: an EMPTY configured list means the open default (0.0.0.0/0, ::/0);
    a non-empty list whose entries all fail to parse stays empty = deny everything *)
 Definition acl_effective (n_entries : N) (ps : list prefix) : list prefix :=
@@ -128,6 +171,19 @@ Fixpoint first_view (views : list ipset) (a : addr) (i : nat) : option nat :=
   match views with
   | [] => None
   | v :: r => if set_contains v a then Some i else first_view r a (S i)
+  end.
+
+(* views.ServeDNS as the chain runs it: no views or an internal writer -> next; no client IP ->
+   next; otherwise the first view containing the client decides (it answers iff it has a record) *)
+Definition view_serve_remote (views : list (ipset * bool)) (r : remote) : option nat :=
+  if writer_internal r then None else
+  match writer_remote_ip r with
+  | None => None
+  | Some a =>
+      match first_view (map fst views) a 0 with
+      | Some i => if snd (nth i views (mk_ipset [] [], false)) then Some i else None
+      | None => None
+      end
   end.
 
 (* Pipeline.SubPipeline(skip...) / autoWire *)
